@@ -304,6 +304,84 @@ static void level_buf_sizes(uint64_t *unit)
 			}
 }
 
+/* many blocks: one stream with MORE THAN 65536 deflate blocks (N tiny SYNC/FULL-flushed calls, N around 2^16 and 2^17, then 2 MiB in one
+ * final call whose blocks close on a full token buffer) - per-block counters, block numbers and "first block" flags kept in 16 bits wrap
+ * here and nowhere else. Levels 0-3, smallest and default level buffer, all wrappers; the stream must decode (zlib) to the input. */
+static void many_blocks(uint64_t *unit)
+{
+	static const int cpus[] = { CPU_BASE, CPU_AVX2, CPU_AVX512G2, CPU_SSE };
+	static const int NS[] = { 65000, 65534, 65541, 131060 };
+	enum { TAIL = 2 << 20, PIECE = 8 };
+	static uint8_t *in, *out, *lb;
+	size_t cap = (size_t)131060 * (PIECE + 160) + TAIL + TAIL / 4 + 4096; /* level 0 repeats its 110-byte header in every block */
+	char key[300], why[256];
+	for (int level = 0; level <= 3; level++)
+		for (int lbi = 0; lbi < 2; lbi++)
+			for (int fl = 0; fl < 2; fl++)
+				for (int ni = 0; ni < 4; ni++) {
+					uint64_t id = (*unit)++;
+					if (!v_mine(id))
+						continue;
+					if (nfail > 40 || v_deadline_hit())
+						return;
+					if (level == 0 && lbi)
+						continue;
+					if (!in) {
+						in = malloc((size_t)131060 * PIECE + TAIL);
+						out = malloc(cap);
+						lb = malloc(ISAL_DEF_LVL3_DEFAULT + 64);
+					}
+					int N = NS[ni], cpu = cpus[(level + lbi + fl + ni) % 4], gz = (level + fl + ni) % 3 == 0 ? IGZIP_DEFLATE : (level + fl + ni) % 3 == 1 ? IGZIP_GZIP : IGZIP_ZLIB;
+					size_t len = (size_t)N * PIECE + TAIL;
+					if ((lbi + fl) & 1) fill_mixed(in, len, 40 + ni); else fill_pattern(in, len, PAT_LOG, 41 + ni);
+					cpu_set_level(cpu);
+					static struct isal_zstream s;
+					isal_deflate_init(&s);
+					s.level = level;
+					s.level_buf = level ? lb : NULL;
+					s.level_buf_size = level ? (lbi ? lvl_default[level] : lvl_min[level]) : 0;
+					s.gzip_flag = gz;
+					s.next_out = out;
+					s.avail_out = (uint32_t)cap;
+					int r = COMP_OK;
+					snprintf(key, sizeof key, "many-blocks level=%d level_buf=%s wrapper=%s cpu=%s: %d calls of %d bytes with %s, then %d bytes to the end", level, lbi ? "DEFAULT" : "MIN", gz_name[gz], cpu_level_name[cpu], N,
+						 PIECE, fl ? "FULL_FLUSH" : "SYNC_FLUSH", TAIL);
+					if (V_TRY()) {
+						for (int i = 0; i < N && r == COMP_OK; i++) {
+							s.next_in = in + (size_t)i * PIECE;
+							s.avail_in = PIECE;
+							s.flush = fl ? FULL_FLUSH : SYNC_FLUSH;
+							r = isal_deflate(&s);
+							if (s.avail_in)
+								r = -77;
+						}
+						if (r == COMP_OK) {
+							s.next_in = in + (size_t)N * PIECE;
+							s.avail_in = TAIL;
+							s.flush = NO_FLUSH;
+							s.end_of_stream = 1;
+							r = isal_deflate(&s);
+						}
+						V_END();
+					} else {
+						v_violation(key, "fault %s", v_fault_desc());
+						nfail++;
+						continue;
+					}
+					size_t outlen = cap - s.avail_out;
+					v_eval_n(N + 1);
+					if (r != COMP_OK || s.avail_in || s.internal_state.state != ZSTATE_END || s.total_in != (uint32_t)len) {
+						v_violation(key, "return %d, avail_in %u, state %d, total_in %u of %zu", r, s.avail_in, s.internal_state.state, s.total_in, len);
+						nfail++;
+					} else if (!verify_with_zlib(out, outlen, gz, in, len, why, sizeof why)) {
+						v_violation(key, "%s", why);
+						nfail++;
+					}
+					v_count("many_block_streams", 1);
+					v_nontrivial(v_hash(out, outlen > 4096 ? 4096 : outlen, id));
+				}
+}
+
 int main(int argc, char **argv)
 {
 	v_init(argc, argv, "C01");
@@ -475,6 +553,7 @@ int main(int argc, char **argv)
 		sweep(id, len, 0, 2);
 	}
 	level_buf_sizes(&unit);
+	many_blocks(&unit);
 	/* BIG (thorough): window wrap, stored-block splitting at 65535, 16-bit hash index wrap */
 	if (v_thorough)
 		for (int li = 0; li < N_BIG_LENS; li++)
